@@ -25,6 +25,16 @@ def q(x):
     return f"(Qmake ({f.numerator}) {f.denominator})"
 
 
+def f64(x):
+    """binary64 literal of Coq's primitive floats (hexadecimal, exact); x is a finite Python float"""
+    h = float(x).hex()
+    return f"({h})%float"
+
+
+def f64list(xs):
+    return "[" + "; ".join(f64(x) for x in xs) + "]"
+
+
 def qlist(xs):
     return "[" + "; ".join(q(x) for x in xs) + "]"
 
